@@ -376,6 +376,182 @@ def user_edit(rng: random.Random, files: dict[str, bytes], candidates: list[str]
 
 
 # ---------------------------------------------------------------------------------------------
+# Trees of plans (nested and sibling sub-plans, dependencies across plans); after the family that
+# build-B1 wrote for C01 (`buildkit.PlanTree`), with deeper nesting and cleanup-oriented edits
+# ---------------------------------------------------------------------------------------------
+
+
+@dataclass
+class PlanTree:
+    """plans: name -> {"parent", "note", "dropped"}; steps: dicts (name, plan, inp, out, vol,
+    optional); sources: path -> (declaring plan, content)."""
+
+    plans: dict
+    steps: list
+    sources: dict
+    motif: tuple | None = None
+    """(producer plan, consumer plan) of an optional producer high up whose only consumer is deep down."""
+
+    def label(self, plan: str) -> str:
+        return "./plan.py" if plan == "root" else f"./{plan}.py"
+
+    def file(self, plan: str) -> str:
+        return "plan.py" if plan == "root" else f"{plan}.py"
+
+    def active(self, plan) -> bool:
+        while plan is not None:
+            if self.plans[plan]["dropped"]:
+                return False
+            plan = self.plans[plan]["parent"]
+        return True
+
+    def depth(self, plan) -> int:
+        d = 0
+        while self.plans[plan]["parent"] is not None:
+            plan = self.plans[plan]["parent"]
+            d += 1
+        return d
+
+    def ancestors(self, plan) -> list:
+        out = []
+        plan = self.plans[plan]["parent"]
+        while plan is not None:
+            out.append(plan)
+            plan = self.plans[plan]["parent"]
+        return out
+
+    def script(self, plan: str) -> list:
+        actions = []
+        own = sorted(p for p, (owner, _) in self.sources.items() if owner == plan)
+        children = [c for c, info in self.plans.items() if info["parent"] == plan and not info["dropped"]]
+        if own or children:
+            actions.append(A.static(*own, *[self.file(c) for c in children]))
+        for step in self.steps:
+            if step["plan"] == plan:
+                actions.append(A.step(step["name"], inp=step["inp"], out=step["out"], vol=step.get("vol", []),
+                                      optional=step["optional"]))
+        for child in children:
+            actions.append(A.step(self.label(child), inp=[self.file(child)], plan=True))
+        return actions
+
+    def render(self) -> Project:
+        scripts, files = {}, {}
+        for plan, info in self.plans.items():
+            script = self.script(plan)
+            scripts[self.label(plan)] = script
+            files[self.file(plan)] = plan_file(script, note=f"note {info['note']}")
+        for path, (_, content) in self.sources.items():
+            files[path] = content
+        return Project(scripts=scripts, files=files)
+
+    def as_model(self) -> CModel:
+        """The active part as a `CModel` (what the oracle of C07 works on): steps of plans that are
+        still included; the files of dropped plans are the user's (`loose`)."""
+        model = CModel()
+        for path, (owner, content) in self.sources.items():
+            (model.static if self.active(owner) else model.loose)[path] = content
+        for plan in self.plans:
+            if plan != "root":
+                (model.static if self.active(plan) else model.loose)[self.file(plan)] = ""
+        for step in self.steps:
+            if self.active(step["plan"]):
+                model.steps.append(CStep(name=step["name"], inp=list(step["inp"]), out=list(step["out"]),
+                                         vol=list(step.get("vol", [])), optional=step["optional"]))
+        return model
+
+
+def gen_plan_tree(rng: random.Random) -> PlanTree:
+    """A root plan, a chain of 1-3 nested plans below it and 0-2 sibling plans anywhere; every plan
+    declares its own sources; steps anywhere consume sources and outputs of any plan; optional
+    producers sit high up and are needed only through consumers further down."""
+    plans = {"root": {"parent": None, "note": 0, "dropped": False}}
+    chain = ["root"]
+    for i in range(rng.randint(1, 3)):
+        name = f"n{i}"
+        plans[name] = {"parent": chain[-1], "note": 0, "dropped": False}
+        chain.append(name)
+    for i in range(rng.randint(0, 2)):
+        plans[f"s{i}"] = {"parent": rng.choice(list(plans)), "note": 0, "dropped": False}
+    sources = {}
+    for plan in plans:
+        for k in range(1 if plan == "root" else rng.randint(0, 2)):
+            sources[f"src/{plan}_{k}.txt"] = (plan, f"{plan} source {k} v0\n")
+    steps, outputs = [], []
+    for i in range(rng.randint(2, 6)):
+        plan = rng.choice(list(plans))
+        pool = sorted(sources) + outputs
+        inp = sorted(rng.sample(pool, rng.randint(1, min(2, len(pool)))))
+        out = f"{rng.choice(OUT_DIRS)}/t{i}.txt"
+        step = {"name": f"tool t{i}", "plan": plan, "inp": inp, "out": [out], "vol": [],
+                "optional": rng.random() < 0.3}
+        if rng.random() < 0.2:
+            step["vol"] = [f"{rng.choice(OUT_DIRS)}/t{i}.log"]
+        steps.append(step)
+        outputs.append(out)
+    tree = PlanTree(plans, steps, sources)
+    if rng.random() < 0.7:
+        consumer_plan = rng.choice(chain[1:])
+        above = [p for p in chain if tree.depth(p) < tree.depth(consumer_plan)]
+        producer_plan = rng.choice(above) if rng.random() < 0.5 else "root"
+        steps.append({"name": "tool opt", "plan": producer_plan, "inp": [sorted(sources)[0]],
+                      "out": ["out/deep/a/opt.txt"], "vol": [], "optional": True})
+        steps.append({"name": "tool use_opt", "plan": consumer_plan, "inp": ["out/deep/a/opt.txt"],
+                      "out": ["gen/x/use_opt.txt"], "vol": [], "optional": False})
+        tree.motif = (producer_plan, consumer_plan)
+    return tree
+
+
+TREE_MUTATIONS = ("touch_plan", "edit_source", "drop_plan", "drop_plan", "readd_plan", "toggle_optional",
+                  "drop_tree_step")
+
+
+def mutate_plan_tree(rng: random.Random, tree: PlanTree, kind: str | None = None) -> tuple[PlanTree, str]:
+    new = copy.deepcopy(tree)
+    kind = kind or rng.choice(TREE_MUTATIONS)
+    if kind == "touch_plan":
+        plan = rng.choice([p for p in new.plans if new.active(p)])
+        new.plans[plan]["note"] += 1
+        return new, f"touch_plan:{plan}"
+    if kind == "edit_source":
+        path = rng.choice(sorted(new.sources))
+        owner, content = new.sources[path]
+        new.sources[path] = (owner, content.rstrip("\n") + "+\n")
+        return new, f"edit_source:{path}"
+    if kind == "drop_plan":
+        candidates = [p for p in new.plans if p != "root" and new.active(p)]
+        if not candidates:
+            return new, "none"
+        plan = rng.choice(candidates)
+        if new.motif is not None and rng.random() < 0.6:
+            # prefer a plan on the path between the optional producer and its deep consumer
+            producer_plan, consumer_plan = new.motif
+            path = [p for p in [consumer_plan, *new.ancestors(consumer_plan)]
+                    if p in candidates and new.depth(p) > new.depth(producer_plan)]
+            if path:
+                plan = rng.choice(path)
+        new.plans[plan]["dropped"] = True
+        return new, f"drop_plan:{plan}"
+    if kind == "readd_plan":
+        candidates = [p for p, info in new.plans.items() if info["dropped"] and new.active(info["parent"])]
+        if not candidates:
+            return new, "none"
+        plan = rng.choice(candidates)
+        new.plans[plan]["dropped"] = False
+        return new, f"readd_plan:{plan}"
+    if kind == "drop_tree_step":
+        consumed = {p for s in new.steps for p in s["inp"]}
+        candidates = [s for s in new.steps if not (set(s["out"]) & consumed)]
+        if len(new.steps) < 2 or not candidates:
+            return new, "none"
+        step = rng.choice(candidates)
+        new.steps.remove(step)
+        return new, f"drop_tree_step:{step['name']}"
+    step = rng.choice(new.steps)
+    step["optional"] = not step["optional"]
+    return new, f"toggle_optional:{step['name']}"
+
+
+# ---------------------------------------------------------------------------------------------
 # Tree snapshots
 # ---------------------------------------------------------------------------------------------
 
